@@ -75,6 +75,7 @@ Fixpoint log_ok_from (persistent : N -> bool) (seen : list lentry) (l : list len
   | e :: t =>
       (match e with
        | LSentV _ i v => negb (persistent i) || existsb (Z.eqb v) (puts i seen)
+                         || (match puts i seen with [] => (v =? 0)%Z | _ => false end)   (* the default, never stored *)
        | LSentM _ i o => negb (persistent i) || existsb (mop_eqb o) (mops i seen)
        | LPut i _ | LDelete i | LMap i _ => persistent i       (* nothing transient reaches the store *)
        | _ => true
